@@ -675,6 +675,12 @@ func callND(fr *frame, name string, args []value) value {
 	case "Unstub":
 		delete(fr.i.stubs, ndName(args[0]))
 		return nil
+	case "TaskModel":
+		sched.enable()
+		return nil
+	case "PreemptionBound":
+		sched.preemptBound = int(asInt64(args[0]))
+		return nil
 	case "Yield":
 		yield(ndName(args[0]))
 		return nil
@@ -842,24 +848,187 @@ func newMapIter(m *omap) iter {
 
 var curInterp *interpreter
 
-// ---- goroutines, channels (cooperative, deterministic) ----
+// ---- goroutines (cooperative tasks, scheduled by nd choices) ----
+//
+// Default: a goroutine runs to completion at its spawn point (one legal schedule
+// when it does not block). After nd.TaskModel() every `go` creates a task; at each
+// scheduling point (spawn, task end, Mutex.Lock/Unlock, WaitGroup.Wait, nd.Yield,
+// runtime.Gosched, time.Sleep) the next runnable task is chosen by a solver-visible
+// choice, so the DFS enumerates the interleavings at that granularity. The executor
+// is sequentially consistent between scheduling points.
+
+type task struct {
+	id      int
+	resume  chan struct{}
+	done    bool
+	blocked func() bool
+	what    string
+}
+
+type taskKilled struct{}
 
 type scheduler struct {
-	wg    map[*value]int
-	locks map[*value]bool
+	wg       map[*value]int
+	locks    map[*value]bool
+	taskMode bool
+	tasks    []*task
+	cur      *task
+	abort    interface{}
+	killing  bool
+	exited   chan struct{}
+	switches int
+
+	preemptions  int
+	preemptBound int
 }
 
 var sched = &scheduler{wg: map[*value]int{}, locks: map[*value]bool{}}
 
 func (s *scheduler) reset() {
+	s.killAll()
 	s.wg = map[*value]int{}
 	s.locks = map[*value]bool{}
+	s.taskMode = false
+	s.tasks = nil
+	s.cur = nil
+	s.abort = nil
+	s.killing = false
+	s.switches = 0
+	s.preemptions = 0
+	s.preemptBound = 2
+}
+
+// killAll terminates parked task goroutines left over from the previous path.
+func (s *scheduler) killAll() {
+	if len(s.tasks) == 0 {
+		return
+	}
+	s.killing = true
+	for _, t := range s.tasks {
+		if t.id != 0 && !t.done {
+			t.resume <- struct{}{}
+			<-s.exited
+		}
+	}
+	s.killing = false
+}
+
+func (s *scheduler) enable() {
+	if s.taskMode {
+		return
+	}
+	s.taskMode = true
+	main := &task{id: 0, resume: make(chan struct{})}
+	s.tasks = []*task{main}
+	s.cur = main
+	s.exited = make(chan struct{})
+}
+
+func (s *scheduler) runnable() []*task {
+	var out []*task
+	for _, t := range s.tasks {
+		if t.done {
+			continue
+		}
+		if t.blocked != nil && t.blocked() {
+			continue
+		}
+		out = append(out, t)
+	}
+	return out
+}
+
+// point is a scheduling point reached by the current task.
+func (s *scheduler) point(why string) {
+	if !s.taskMode {
+		return
+	}
+	cur := s.cur
+	r := s.runnable()
+	if len(r) == 0 {
+		s.fail(pathEnd{peUnsupported, "deadlock: no runnable task at " + why})
+		return
+	}
+	// preemption bounding: once the bound is used up a runnable task keeps running
+	curRunnable := false
+	for _, t := range r {
+		if t == cur {
+			curRunnable = true
+		}
+	}
+	if curRunnable && s.preemptions >= s.preemptBound {
+		return
+	}
+	pick := r[0]
+	if len(r) > 1 {
+		t := ex.newVar("sched", 64)
+		alts := make([]*Term, len(r))
+		for k := range r {
+			alts[k] = Eq(t, BV(64, uint64(k)))
+		}
+		ex.Assume(Bin(OUlt, t, BV(64, uint64(len(r)))))
+		pick = r[ex.Fork("sched:"+why, alts)]
+	}
+	if pick == cur {
+		return
+	}
+	if curRunnable {
+		s.preemptions++
+	}
+	s.switchTo(cur, pick)
+}
+
+func (s *scheduler) switchTo(cur, next *task) {
+	s.switches++
+	s.cur = next
+	next.resume <- struct{}{}
+	if cur.done {
+		return // the finished task's goroutine just returns
+	}
+	<-cur.resume
+	s.cur = cur
+	if s.killing {
+		panic(taskKilled{})
+	}
+	if s.abort != nil && cur.id == 0 {
+		r := s.abort
+		s.abort = nil
+		panic(r)
+	}
+}
+
+// fail aborts the whole path from whichever task detected the problem.
+func (s *scheduler) fail(r interface{}) {
+	if s.cur == nil || s.cur.id == 0 {
+		panic(r)
+	}
+	s.abort = r
+	cur := s.cur
+	s.cur = s.tasks[0]
+	s.tasks[0].resume <- struct{}{}
+	<-cur.resume // parked until killed
+	panic(taskKilled{})
 }
 
 func (s *scheduler) lock(p *value) {
+	if !s.taskMode {
+		if s.locks[p] {
+			panic(pathEnd{peUnsupported, "deadlock: Lock of a held mutex in sequential task model"})
+		}
+		s.locks[p] = true
+		return
+	}
+	s.point("lock")
 	if s.locks[p] {
-		// single-task execution: a held lock can never be released
-		panic(pathEnd{peUnsupported, "deadlock: Lock of a held mutex in sequential task model"})
+		cur := s.cur
+		cur.blocked = func() bool { return s.locks[p] }
+		s.point("lock-wait")
+		cur.blocked = nil
+		for s.locks[p] { // woken but lost the race again
+			cur.blocked = func() bool { return s.locks[p] }
+			s.point("lock-wait")
+			cur.blocked = nil
+		}
 	}
 	s.locks[p] = true
 }
@@ -869,22 +1038,67 @@ func (s *scheduler) unlock(p *value) {
 		panic(targetPanic{iface{types.Typ[types.String], "sync: unlock of unlocked mutex"}})
 	}
 	delete(s.locks, p)
+	s.point("unlock")
 }
 
 func (s *scheduler) waitUntil(what string, cond func() bool) {
-	if !cond() {
-		panic(pathEnd{peUnsupported, "would block forever in sequential task model: " + what})
+	if !s.taskMode {
+		if !cond() {
+			panic(pathEnd{peUnsupported, "would block forever in sequential task model: " + what})
+		}
+		return
+	}
+	cur := s.cur
+	for !cond() {
+		cur.blocked = func() bool { return !cond() }
+		s.point(what)
+		cur.blocked = nil
 	}
 }
 
-func yield(point string) {}
+func yield(point string) { sched.point(point) }
 
-// spawn runs a goroutine. In the sequential task model the new task runs to
-// completion at the spawn point (one legal schedule when it does not block).
+// spawn runs a goroutine (see the comment at the top of this section).
 func spawn(fr *frame, instr *ssa.Go, fn value, args []value) {
-	savedDepth := ex.depth
-	defer func() { ex.depth = savedDepth }()
-	call(fr.i, nil, instr.Pos(), fn, args)
+	if !sched.taskMode {
+		savedDepth := ex.depth
+		defer func() { ex.depth = savedDepth }()
+		call(fr.i, nil, instr.Pos(), fn, args)
+		return
+	}
+	s := sched
+	t := &task{id: len(s.tasks), resume: make(chan struct{})}
+	s.tasks = append(s.tasks, t)
+	i := fr.i
+	pos := instr.Pos()
+	go func() {
+		<-t.resume
+		if s.killing {
+			t.done = true
+			s.exited <- struct{}{}
+			return
+		}
+		defer func() {
+			r := recover()
+			if _, ok := r.(taskKilled); ok || s.killing {
+				t.done = true
+				s.exited <- struct{}{}
+				return
+			}
+			if r != nil {
+				// an uncaught panic (or engine event) in a goroutine ends the whole program
+				t.done = true
+				s.abort = r
+				s.cur = s.tasks[0]
+				s.tasks[0].resume <- struct{}{}
+				return
+			}
+		}()
+		call(i, nil, pos, fn, args)
+		t.done = true
+		s.point("task-end")
+	}()
+	s.point("spawn")
 }
 
 func chanSend(ch value, v value) {
